@@ -235,6 +235,7 @@ func main() {
 		}
 
 		checkComplete(c, repoDir())
+		selfTest()
 		generate(r)
 	})
 }
